@@ -741,3 +741,102 @@ Proof.
       * rewrite app_comm_cons. apply in_or_app. right. destruct Hz; subst; [left|right]; auto.
       * intro Q. apply NL. rewrite <- Q. destruct Hz; subst; [left|right]; auto.
 Qed.
+
+(* ---------- node_new ---------- *)
+Lemma node_new_spec : forall s level k x s' id, node_new s level k x = (s', id) ->
+  id = length (k_nodes s) /\
+  k_nodes s' = k_nodes s ++ [{| sc_live := true; sc_node := {| sn_key := k; sn_val := x; sn_level := level; sn_ref := 1; sn_subs := []; sn_fwd := length (k_arrs s) |} |}] /\
+  k_arrs s' = k_arrs s ++ [{| fa_live := true; fa_ptrs := repeat None (S LEVEL_MAX) |}] /\
+  k_length s' = k_length s /\ k_level s' = k_level s /\ k_iters s' = k_iters s /\ k_used s' = k_used s /\ k_alive s' = k_alive s.
+Proof. unfold node_new. intros. inversion H; subst. simpl. repeat split; auto. Qed.
+
+Lemma dnode_app_old : forall s s' c x, k_nodes s' = k_nodes s ++ [c] -> x < length (k_nodes s) -> dnode s' x = dnode s x.
+Proof. intros. unfold dnode. rewrite H, nth_error_app1; auto. Qed.
+Lemma dnode_app_new : forall s s' n, k_nodes s' = k_nodes s ++ [{| sc_live := true; sc_node := n |}] -> dnode s' (length (k_nodes s)) = Ok n.
+Proof. intros. unfold dnode. rewrite H, nth_error_app2 by lia. rewrite Nat.sub_diag. reflexivity. Qed.
+Lemma darr_app_old : forall s s' c a, k_arrs s' = k_arrs s ++ [c] -> a < length (k_arrs s) -> darr s' a = darr s a.
+Proof. intros. unfold darr. rewrite H, nth_error_app1; auto. Qed.
+Lemma darr_app_new : forall s s' l, k_arrs s' = k_arrs s ++ [{| fa_live := true; fa_ptrs := l |}] -> darr s' (length (k_arrs s)) = Ok l.
+Proof. intros. unfold darr. rewrite H, nth_error_app2 by lia. rewrite Nat.sub_diag. reflexivity. Qed.
+
+Lemma fwd_app_old : forall s s' c1 c2 x m l, k_nodes s' = k_nodes s ++ [c1] -> k_arrs s' = k_arrs s ++ [c2] ->
+  dnode s x = Ok m -> sn_fwd m < length (k_arrs s) -> fwd s' x l = fwd s x l.
+Proof.
+  intros. unfold fwd. rewrite (dnode_app_old s s' c1 x H) by (eapply dnode_lt; eauto). rewrite H1. simpl.
+  rewrite (darr_app_old s s' c2 _ H0); auto.
+Qed.
+
+Lemma same_rest_trans : forall a b c, same_rest a b -> same_rest b c -> same_rest a c.
+Proof. unfold same_rest. intros a b c [A1 [A2 [A3 [A4 [A5 A6]]]]] [B1 [B2 [B3 [B4 [B5 B6]]]]]. repeat split; congruence. Qed.
+
+(* ---------- the linking loop of skiplist_put ---------- *)
+Definition sub_universe (U : list nat) (s : kstate) : Prop := forall x, In x U -> exists m, dnode s x = Ok m.
+
+Lemma link_ok : forall cnt i s u U new lo hi,
+  i + cnt <= S LEVEL_MAX -> Own s U -> sub_universe U s -> In new U -> In HEADER U -> (forall x, In x (lo ++ hi) -> In x U) ->
+  NoDup (new :: HEADER :: lo ++ hi) ->
+  (forall l, i <= l -> l <= LEVEL_MAX -> Linked s l HEADER (chain s lo l ++ chain s hi l)) ->
+  (forall l, i <= l -> l < i + cnt -> uv_get u l = Some (last (chain s lo l) HEADER)) ->
+  exists s', link_levels s u new (seq i cnt) = Ok s' /\ same_rest s s' /\ Own s' U /\
+    (forall l x, l < i \/ i + cnt <= l -> In x U -> fwd s' x l = fwd s x l) /\
+    (forall l, i <= l -> l < i + cnt -> Linked s' l HEADER (chain s lo l ++ new :: chain s hi l)).
+Proof.
+  induction cnt; intros i s u U new lo hi Hc O SU Hn Hh HU ND LK UV.
+  - simpl. exists s. split; auto. split. repeat split. split; auto. split; auto. intros. lia.
+  - cbn [seq link_levels]. rewrite (UV i) by lia.
+    set (p := last (chain s lo i) HEADER).
+    assert (PU : In p U).
+    { pose proof (last_in (chain s lo i) HEADER) as Q0. fold p in Q0. destruct Q0 as [Q|Q]. rewrite <- Q. auto.
+      apply HU. apply in_or_app. left. unfold chain in Q. apply filter_In in Q. apply Q. }
+    assert (Li : i <= LEVEL_MAX) by (unfold LEVEL_MAX in *; lia).
+    generalize (LK i (le_n i) Li). intro L0. apply linked_split in L0. destruct L0 as [L1 L2]. fold p in L2.
+    rewrite (linked_head _ _ _ _ L2). cbn [bind].
+    destruct (set_fwd_own s U new i (hd_error (chain s hi i)) O Hn (SU new Hn) Li) as [sa [A1 [A2 [A3 A4]]]]. rewrite A1. cbn [bind].
+    assert (SUa : sub_universe U sa). { intros x Hx. destruct A2 as [A2 _]. unfold dnode. rewrite A2. apply SU; auto. }
+    destruct (set_fwd_own sa U p i (Some new) A3 PU (SUa p PU) Li) as [sb [B1 [B2 [B3 B4]]]]. rewrite B1. cbn [bind].
+    assert (SUb : sub_universe U sb). { intros x Hx. destruct B2 as [B2 _]. unfold dnode. rewrite B2. apply SUa; auto. }
+    assert (NE : p <> new).
+    { intro Q. assert (NN : ~ In new (HEADER :: lo ++ hi)) by (inversion ND; auto). apply NN. rewrite <- Q.
+      pose proof (last_in (chain s lo i) HEADER) as Q0. fold p in Q0. destruct Q0 as [Q2|Q2]. left; auto.
+      right. apply in_or_app. left. unfold chain in Q2. apply filter_In in Q2. apply Q2. }
+    (* reading after the two stores *)
+    assert (RD : forall x l, In x U -> fwd sb x l =
+              if Nat.eqb x p && Nat.eqb i l then Ok (Some new)
+              else if Nat.eqb x new && Nat.eqb i l then Ok (hd_error (chain s hi i)) else fwd s x l).
+    { intros x l Hx. rewrite (B4 x l Hx (SUa x Hx)). destruct (Nat.eqb x p && Nat.eqb i l); auto. }
+    assert (CHb : forall X l, chain sb X l = chain s X l).
+    { intros. unfold chain. apply filter_ext_in'. intros. unfold at_level, nlvl, dnode. destruct A2 as [A2 _]. destruct B2 as [B2 _]. rewrite B2, A2. auto. }
+    destruct (IHcnt (S i) sb u U new lo hi) as [s' [E1 [E2 [E3 [E4 E5]]]]]; auto; try lia.
+    { intros l Hl1 Hl2. rewrite !CHb. apply (linked_ext s). 2: apply LK; lia.
+      intros y Hy. rewrite RD. replace (Nat.eqb i l) with false by (symmetry; apply Nat.eqb_neq; lia). rewrite !andb_false_r. auto.
+      destruct Hy as [Hy|Hy]. subst. auto. apply HU. apply in_app_or in Hy. apply in_or_app.
+      destruct Hy as [Hy|Hy]; [left|right]; unfold chain in Hy; apply filter_In in Hy; apply Hy. }
+    { intros l Hl1 Hl2. rewrite CHb. apply UV; lia. }
+    assert (NDU : NoDup (HEADER :: chain s lo i ++ chain s hi i)).
+    { assert (N1 : NoDup (HEADER :: lo ++ hi)) by (inversion ND; auto). inversion N1; subst. constructor.
+      - intro Q. apply H1. unfold chain in Q. rewrite <- filter_app in Q. apply filter_In in Q. apply Q.
+      - unfold chain. rewrite <- filter_app. apply NoDup_filter. auto. }
+    assert (INU : forall x, In x (HEADER :: chain s lo i ++ chain s hi i) -> In x U /\ x <> new).
+    { intros x Hx. assert (In x (HEADER :: lo ++ hi)).
+      { destruct Hx as [Hx|Hx]. left; auto. right. unfold chain in Hx. rewrite <- filter_app in Hx. apply filter_In in Hx. apply Hx. }
+      split. destruct H; subst; auto. intro Q. subst x. inversion ND; subst. contradiction. }
+    assert (LKi : Linked sb i HEADER (chain s lo i ++ new :: chain s hi i)).
+    { apply (linked_insert s sb i (chain s lo i) HEADER (chain s hi i) new NDU (LK i (le_n i) Li)).
+      - intros x Hx Nx. destruct (INU x Hx) as [I1 I2]. rewrite RD by auto. fold p in Nx.
+        replace (Nat.eqb x p) with false by (symmetry; apply Nat.eqb_neq; auto).
+        replace (Nat.eqb x new) with false by (symmetry; apply Nat.eqb_neq; auto). reflexivity.
+      - fold p. rewrite RD by auto. rewrite !Nat.eqb_refl. reflexivity.
+      - rewrite RD by auto. replace (Nat.eqb new p) with false by (symmetry; apply Nat.eqb_neq; auto). rewrite !Nat.eqb_refl. reflexivity. }
+    exists s'. split; auto. split.
+    { eapply same_rest_trans. exact A2. eapply same_rest_trans. exact B2. exact E2. }
+    split; auto. split.
+    { intros l x Hl Hx. rewrite E4 by (auto; lia). rewrite RD by auto.
+      replace (Nat.eqb i l) with false by (symmetry; apply Nat.eqb_neq; lia). rewrite !andb_false_r. reflexivity. }
+    intros l Hl1 Hl2. destruct (Nat.eq_dec l i).
+    { subst l. apply (linked_ext sb). 2: exact LKi. intros y Hy. apply E4. left; lia.
+      destruct Hy as [Hy|Hy]. subst; auto. apply in_app_or in Hy. destruct Hy as [Hy|[Hy|Hy]].
+      - apply INU. right. apply in_or_app; auto.
+      - subst; auto.
+      - apply INU. right. apply in_or_app; auto. }
+    { generalize (E5 l). rewrite !CHb. intro Q. apply Q; lia. }
+Qed.
